@@ -152,8 +152,8 @@ def h_dedup(E, k, with_host):
     use_p = bool(E.bool("use_pattern_orbits"))
     kw = dict(pattern_orbits=porb if use_p else None, pattern_anchor=anchor if use_p else None, host_orbits=horb)
     if with_host:
-        # the documented (inert) host_anchor argument: nothing or one host node (an anchor component need not be a union of orbits)
-        hai = int(E.int("hanchor", -1, 2))
+        # the documented (inert) host_anchor argument: nothing or the last host node (an anchor component need not be a union of orbits)
+        hai = int(E.choice("hanchor", [-1, 2]))
         if hai >= 0:
             kw["host_anchor"] = frozenset([H[hai]])
     out = dd(matches, **kw)
